@@ -79,11 +79,11 @@ def clifford_gate(rng, n):
     r = rng.random()
     if r < 0.06:
         return rec("GlobalPhase", [1], [rng.randrange(1 << M)])
-    if r < 0.09:
+    if r < 0.08:
         return rec(rng.choice(["RX", "RY", "RZ", "PhaseShift"]), [rng.randint(1, n)], [2 * rng.randrange(8)])
-    if r < 0.11:
+    if r < 0.10:
         return rec("SX", [rng.randint(1, n)])
-    if r < 0.13 and n >= 2:
+    if r < 0.12 and n >= 2:
         return rec("ECR", rng.sample(range(1, n + 1), 2))
     if r < 0.6 or n < 2:
         g = rec(rng.choice(C1), [rng.randint(1, n)])
@@ -92,9 +92,9 @@ def clifford_gate(rng, n):
     q = rng.random()
     if q < 0.15:
         g["mods"] = [{"t": "adj"}]
-    elif q < 0.22:
-        g["mods"] = [{"t": "pow", "z": rng.choice([2, 2, -2, 3, -1])}]
-    elif q < 0.27 and g["g"] in ("PauliX", "PauliY", "PauliZ") and n >= 2:
+    elif q < 0.20:
+        g["mods"] = [{"t": "pow", "z": rng.choice([2, 2, -2, -2, 3, -1])}]
+    elif q < 0.25 and g["g"] in ("PauliX", "PauliY", "PauliZ") and n >= 2:
         free = [w for w in range(1, n + 1) if w not in g["w"]]
         g["w"] = [rng.choice(free)] + g["w"]
         g["mods"] = [{"t": "ctrl", "cv": [rng.randint(0, 1)]}]
@@ -103,7 +103,7 @@ def clifford_gate(rng, n):
 
 def gen_cases(tier, seed):
     rng = random.Random(2700 + seed)
-    ngen, ncl = (90, 60) if tier == "quick" else (1500, 900)
+    ngen, ncl = (90, 60) if tier == "quick" else (1000, 600)
     cases = []
     for i in range(ngen + ncl):
         cl = i >= ngen
@@ -187,6 +187,8 @@ def up_to_phase(g, x, tol):
     if g.shape != x.shape:
         return False
     k = int(np.argmax(np.abs(x)))
+    if abs(x.reshape(-1)[k]) < 1e-6:
+        return bool(np.allclose(g, 0, atol=tol, rtol=0))
     if abs(g.reshape(-1)[k]) < 1e-6:
         return False
     return bool(np.allclose(g * (x.reshape(-1)[k] / g.reshape(-1)[k]), x, atol=tol, rtol=0))
@@ -226,6 +228,8 @@ def diagnose(dev, c, m, got, e, v, ctx):
             t = np.transpose(t, keep + [i for i in range(n) if i not in keep]).reshape(1 << len(keep), -1)
             if up_to_phase(g_, t @ t.T, 1e-6):
                 return "unconjugated"
+        if dev == "reference.qubit" and m[0] in ("vn", "mi") and list(ctx["tape"].wires) != list(range(len(ctx["tape"].wires))):
+            return "nonstandard-wires"
         if dev == "default.clifford" and m[0] == "mi":
             sa, sb = (devsim.entropy(devsim.reduced_dm(psi, w, n)) for w in (m[1], m[2]))
             if abs(float(g_) - (sa + sb)) < 1e-8:
@@ -233,12 +237,8 @@ def diagnose(dev, c, m, got, e, v, ctx):
         if dev == "default.tensor/mps" and m[0] != "state":
             d = make_device(dev, c["labels"], n, c["devwires"])
             (t2,), _ = d.preprocess()[0]([ctx["tape"]])
-            order = list(d.wires) if d.wires is not None else list(t2.wires)
-            for op in t2.operations:
-                if op.name in ("PauliRot", "MultiRZ") and len(op.wires) >= 3:
-                    p = [order.index(w) for w in op.wires]
-                    if p != sorted(p):
-                        return "unsorted-paulirot-wires"
+            if any(op.name in ("PauliRot", "MultiRZ") and len(op.wires) >= 3 for op in t2.operations):
+                return "paulirot-mpo"           # a Pauli rotation on >= 3 wires is applied as a matrix product operator
     except Exception:  # noqa: BLE001 - a diagnosis aid only
         pass
     return "mismatch"
@@ -302,7 +302,7 @@ def run(tier, seed):
             meas = meas_for(dev, c)
             if not meas:
                 continue
-            t0 = time.time()
+            t0 = time.process_time()
             try:
                 d = make_device(dev, c["labels"], c["n"], c["devwires"])
             except ImportError as e:
@@ -323,7 +323,7 @@ def run(tier, seed):
                 runs.append((ci, dev, meas, tape, out, exc, False))
             if dev.startswith("default.tensor") and ci % 5 == 0:
                 runs.append((ci, dev, [("probs", [1])]) + ex([("probs", [1])]) + (True,))    # documented as unsupported: to be refused
-            t_dev[dev] = t_dev.get(dev, 0.0) + time.time() - t0
+            t_dev[dev] = t_dev.get(dev, 0.0) + time.process_time() - t0
     th.join()
     if "err" in box:
         raise box["err"]
@@ -359,7 +359,7 @@ def run(tier, seed):
             else:
                 kinds = "+".join(sorted({m[0] for m in meas}))
                 std = list(tape.wires) == list(range(len(tape.wires)))
-                viol.append(Violation(key=f"{dev}:{kinds}:crash:{cls}" + ("" if std else ":nonstandard-wires"),
+                viol.append(Violation(key=f"{dev}:{kinds}:crash:{cls}" + ("" if std else ":nonstandard-wires") + (":broadcast" if c["batch"] else ""),
                                       detail=f"{where} raised {cls}: {str(exc)[:160]} on {opsdesc} measuring {meas}; tape wires {list(tape.wires)}",
                                       replay={"case": c, "device": dev, "measurements": [list(m) for m in meas]}))
             continue
@@ -481,7 +481,7 @@ def run(tier, seed):
            "compared_by_device_and_kind": kinds_cmp, "gate_kinds_in_agreeing_circuits": gates_seen,
            "null_qubit_shapes_ok": shape_ok, "oracle_shape_selfchecks": sum(1 for o in shape_owner if o[1] == "oracle"),
            "negative_controls_rejected": neg, "circuits": len(cases), "ring_level_M": M,
-           "device_seconds": {k: round(v, 1) for k, v in t_dev.items()}}
+           "device_cpu_seconds": {k: round(v, 1) for k, v in t_dev.items()}, "python_cpu_seconds": round(time.process_time(), 1)}
     return CheckResult(coverage=cov, violations=viol, assumptions=[
         "angles on the lattice 4*pi/16; density matrices, purities and entropies are computed from TLC's exact state with numpy; float comparison at 1e-8",
         "qp.state() on default.mixed is compared with |psi><psi| (documented); on default.clifford (tableau=False) up to a global phase; "
